@@ -32,6 +32,89 @@ Definition promo_caps (fr to : N) (cap : piece) : list move :=
   [mkMove PromoCapture fr to Pawn cap Queen; mkMove PromoCapture fr to Pawn cap Rook;
    mkMove PromoCapture fr to Pawn cap Bishop; mkMove PromoCapture fr to Pawn cap Knight].
 
+(* one en-passant attempt: the ep block's inner if/else *)
+Definition ep_try (p : position) (ksq : N) (cond : bool) (blockers rq fr : N) : list move :=
+  if cond then
+    if bb_nonempty (N.land (ray_east ksq blockers) rq) || bb_nonempty (N.land (ray_west ksq blockers) rq)
+    then [] else [mkMove Enpassant fr (ep p) Pawn Pawn NoPiece]
+  else [].
+
+(* the "Pawns" block of legal_captures, both colours *)
+Definition pawn_captures (p : position) (us : side) (ksq occ allowed pinned_rook pinned_ne_sw pinned_nw_se ep_bb : N)
+           (ep_resolves_check : bool) : list move :=
+  match us with
+  | White =>
+    let pawns_ne := N.land (N.land (pieces p us Pawn) (not64 pinned_rook)) (not64 pinned_nw_se) in
+    let pawns_nw := N.land (N.land (pieces p us Pawn) (not64 pinned_rook)) (not64 pinned_ne_sw) in
+    let promo_ne := N.land pawns_ne Rank7 in
+    let promo_nw := N.land pawns_nw Rank7 in
+    let nonpromo_ne := N.land pawns_ne (not64 Rank7) in
+    let nonpromo_nw := N.land pawns_nw (not64 Rank7) in
+    emit (N.land (east (north nonpromo_ne)) allowed)
+         (fun sq => [mkMove Capture (sq_west (sq_south sq)) sq Pawn (piece_on p sq) NoPiece]) ++
+    emit (N.land (west (north nonpromo_nw)) allowed)
+         (fun sq => [mkMove Capture (sq_east (sq_south sq)) sq Pawn (piece_on p sq) NoPiece]) ++
+    emit (N.land (east (north promo_ne)) allowed)
+         (fun sq => promo_caps (sq_west (sq_south sq)) sq (piece_on p sq)) ++
+    emit (N.land (west (north promo_nw)) allowed)
+         (fun sq => promo_caps (sq_east (sq_south sq)) sq (piece_on p sq)) ++
+    (if bb_nonempty ep_bb && ep_resolves_check then
+       let rq := N.lor (pieces p Black Rook) (pieces p Black Queen) in
+       ep_try p ksq (bb_nonempty (N.land pawns_nw (east (south ep_bb))))
+              (N.lxor (N.lxor (N.lxor occ ep_bb) (south ep_bb)) (east (south ep_bb))) rq
+              (sq_east (sq_south (ep p))) ++
+       ep_try p ksq (bb_nonempty (N.land pawns_ne (west (south ep_bb))))
+              (N.lxor (N.lxor (N.lxor occ ep_bb) (south ep_bb)) (west (south ep_bb))) rq
+              (sq_west (sq_south (ep p)))
+     else [])
+  | Black =>
+    let pawns_se := N.land (N.land (pieces p us Pawn) (not64 pinned_rook)) (not64 pinned_ne_sw) in
+    let pawns_sw := N.land (N.land (pieces p us Pawn) (not64 pinned_rook)) (not64 pinned_nw_se) in
+    let promo_se := N.land pawns_se Rank2 in
+    let promo_sw := N.land pawns_sw Rank2 in
+    let nonpromo_se := N.land pawns_se (not64 Rank2) in
+    let nonpromo_sw := N.land pawns_sw (not64 Rank2) in
+    emit (N.land (east (south nonpromo_se)) allowed)
+         (fun sq => [mkMove Capture (sq_west (sq_north sq)) sq Pawn (piece_on p sq) NoPiece]) ++
+    emit (N.land (west (south nonpromo_sw)) allowed)
+         (fun sq => [mkMove Capture (sq_east (sq_north sq)) sq Pawn (piece_on p sq) NoPiece]) ++
+    emit (N.land (east (south promo_se)) allowed)
+         (fun sq => promo_caps (sq_west (sq_north sq)) sq (piece_on p sq)) ++
+    emit (N.land (west (south promo_sw)) allowed)
+         (fun sq => promo_caps (sq_east (sq_north sq)) sq (piece_on p sq)) ++
+    (if bb_nonempty ep_bb && ep_resolves_check then
+       let rq := N.lor (pieces p White Rook) (pieces p White Queen) in
+       ep_try p ksq (bb_nonempty (N.land (N.land nonpromo_sw (east (north ep_bb))) (not64 pinned_nw_se)))
+              (N.lxor (N.lxor occ (north ep_bb)) (east (north ep_bb))) rq
+              (sq_east (sq_north (ep p))) ++
+       ep_try p ksq (bb_nonempty (N.land (N.land nonpromo_se (west (north ep_bb))) (not64 pinned_ne_sw)))
+              (N.lxor (N.lxor occ (north ep_bb)) (west (north ep_bb))) rq
+              (sq_west (sq_north (ep p)))
+     else [])
+  end.
+
+Definition caps_from (p : position) (pc : piece) (fr : N) (mask : N) : list move :=
+  emit mask (fun to => [mkMove Capture fr to pc (piece_on p to) NoPiece]).
+
+(* knights, bishops, rooks, queens of legal_captures *)
+Definition piece_captures (p : position) (us : side) (allowed pin pinned_bishop pinned_rook bishop_xrays rook_xrays occ_ne : N) : list move :=
+  emit (N.land (pieces p us Knight) (not64 pin))
+       (fun fr => caps_from p Knight fr (N.land (knight_moves fr) allowed)) ++
+  emit (N.land (pieces p us Bishop) (not64 pin))
+       (fun fr => caps_from p Bishop fr (N.land (bishop_moves fr occ_ne) allowed)) ++
+  emit (N.land (pieces p us Bishop) pinned_bishop)
+       (fun fr => caps_from p Bishop fr (N.land (N.land (bishop_moves fr occ_ne) allowed) bishop_xrays)) ++
+  emit (N.land (pieces p us Rook) (not64 pin))
+       (fun fr => caps_from p Rook fr (N.land (rook_moves fr occ_ne) allowed)) ++
+  emit (N.land (pieces p us Rook) pinned_rook)
+       (fun fr => caps_from p Rook fr (N.land (N.land (rook_moves fr occ_ne) allowed) rook_xrays)) ++
+  emit (N.land (pieces p us Queen) (not64 pin))
+       (fun fr => caps_from p Queen fr (N.land (queen_moves fr occ_ne) allowed)) ++
+  emit (N.land (pieces p us Queen) pinned_bishop)
+       (fun fr => caps_from p Queen fr (N.land (N.land (bishop_moves fr occ_ne) allowed) bishop_xrays)) ++
+  emit (N.land (pieces p us Queen) pinned_rook)
+       (fun fr => caps_from p Queen fr (N.land (N.land (rook_moves fr occ_ne) allowed) rook_xrays)).
+
 (* [ep_check_guard] = true : the repaired code (ep only when it resolves the check);
    false : the pinned tree before "fix: en passant must resolve a check" (D1). *)
 Definition legal_captures_gen (ep_check_guard : bool) (p : position) : list move :=
@@ -61,81 +144,8 @@ Definition legal_captures_gen (ep_check_guard : bool) (p : position) : list move
          bb_nonempty (N.land (squares_between ksq (bb_lsb chk)) ep_bb)
     else true in
   let occ_ne := not64 (empty_sqs p) in
-  let ep_try (cond : bool) (blockers : N) (rq : N) (fr : N) : list move :=
-    if cond then
-      if bb_nonempty (N.land (ray_east ksq blockers) rq) || bb_nonempty (N.land (ray_west ksq blockers) rq)
-      then [] else [mkMove Enpassant fr (ep p) Pawn Pawn NoPiece]
-    else [] in
-  let pawn_moves :=
-    match us with
-    | White =>
-      let pawns_ne := N.land (N.land (pieces p us Pawn) (not64 pinned_rook)) (not64 pinned_nw_se) in
-      let pawns_nw := N.land (N.land (pieces p us Pawn) (not64 pinned_rook)) (not64 pinned_ne_sw) in
-      let promo_ne := N.land pawns_ne Rank7 in
-      let promo_nw := N.land pawns_nw Rank7 in
-      let nonpromo_ne := N.land pawns_ne (not64 Rank7) in
-      let nonpromo_nw := N.land pawns_nw (not64 Rank7) in
-      emit (N.land (east (north nonpromo_ne)) allowed)
-           (fun sq => [mkMove Capture (sq_west (sq_south sq)) sq Pawn (piece_on p sq) NoPiece]) ++
-      emit (N.land (west (north nonpromo_nw)) allowed)
-           (fun sq => [mkMove Capture (sq_east (sq_south sq)) sq Pawn (piece_on p sq) NoPiece]) ++
-      emit (N.land (east (north promo_ne)) allowed)
-           (fun sq => promo_caps (sq_west (sq_south sq)) sq (piece_on p sq)) ++
-      emit (N.land (west (north promo_nw)) allowed)
-           (fun sq => promo_caps (sq_east (sq_south sq)) sq (piece_on p sq)) ++
-      (if bb_nonempty ep_bb && ep_resolves_check then
-         let rq := N.lor (pieces p Black Rook) (pieces p Black Queen) in
-         ep_try (bb_nonempty (N.land pawns_nw (east (south ep_bb))))
-                (N.lxor (N.lxor (N.lxor occ ep_bb) (south ep_bb)) (east (south ep_bb))) rq
-                (sq_east (sq_south (ep p))) ++
-         ep_try (bb_nonempty (N.land pawns_ne (west (south ep_bb))))
-                (N.lxor (N.lxor (N.lxor occ ep_bb) (south ep_bb)) (west (south ep_bb))) rq
-                (sq_west (sq_south (ep p)))
-       else [])
-    | Black =>
-      let pawns_se := N.land (N.land (pieces p us Pawn) (not64 pinned_rook)) (not64 pinned_ne_sw) in
-      let pawns_sw := N.land (N.land (pieces p us Pawn) (not64 pinned_rook)) (not64 pinned_nw_se) in
-      let promo_se := N.land pawns_se Rank2 in
-      let promo_sw := N.land pawns_sw Rank2 in
-      let nonpromo_se := N.land pawns_se (not64 Rank2) in
-      let nonpromo_sw := N.land pawns_sw (not64 Rank2) in
-      emit (N.land (east (south nonpromo_se)) allowed)
-           (fun sq => [mkMove Capture (sq_west (sq_north sq)) sq Pawn (piece_on p sq) NoPiece]) ++
-      emit (N.land (west (south nonpromo_sw)) allowed)
-           (fun sq => [mkMove Capture (sq_east (sq_north sq)) sq Pawn (piece_on p sq) NoPiece]) ++
-      emit (N.land (east (south promo_se)) allowed)
-           (fun sq => promo_caps (sq_west (sq_north sq)) sq (piece_on p sq)) ++
-      emit (N.land (west (south promo_sw)) allowed)
-           (fun sq => promo_caps (sq_east (sq_north sq)) sq (piece_on p sq)) ++
-      (if bb_nonempty ep_bb && ep_resolves_check then
-         let rq := N.lor (pieces p White Rook) (pieces p White Queen) in
-         ep_try (bb_nonempty (N.land (N.land nonpromo_sw (east (north ep_bb))) (not64 pinned_nw_se)))
-                (N.lxor (N.lxor occ (north ep_bb)) (east (north ep_bb))) rq
-                (sq_east (sq_north (ep p))) ++
-         ep_try (bb_nonempty (N.land (N.land nonpromo_se (west (north ep_bb))) (not64 pinned_ne_sw)))
-                (N.lxor (N.lxor occ (north ep_bb)) (west (north ep_bb))) rq
-                (sq_west (sq_north (ep p)))
-       else [])
-    end in
-  let caps (pc : piece) (fr : N) (mask : N) : list move :=
-    emit mask (fun to => [mkMove Capture fr to pc (piece_on p to) NoPiece]) in
-  pawn_moves ++
-  emit (N.land (pieces p us Knight) (not64 pin))
-       (fun fr => caps Knight fr (N.land (knight_moves fr) allowed)) ++
-  emit (N.land (pieces p us Bishop) (not64 pin))
-       (fun fr => caps Bishop fr (N.land (bishop_moves fr occ_ne) allowed)) ++
-  emit (N.land (pieces p us Bishop) pinned_bishop)
-       (fun fr => caps Bishop fr (N.land (N.land (bishop_moves fr occ_ne) allowed) bishop_xrays)) ++
-  emit (N.land (pieces p us Rook) (not64 pin))
-       (fun fr => caps Rook fr (N.land (rook_moves fr occ_ne) allowed)) ++
-  emit (N.land (pieces p us Rook) pinned_rook)
-       (fun fr => caps Rook fr (N.land (N.land (rook_moves fr occ_ne) allowed) rook_xrays)) ++
-  emit (N.land (pieces p us Queen) (not64 pin))
-       (fun fr => caps Queen fr (N.land (queen_moves fr occ_ne) allowed)) ++
-  emit (N.land (pieces p us Queen) pinned_bishop)
-       (fun fr => caps Queen fr (N.land (N.land (bishop_moves fr occ_ne) allowed) bishop_xrays)) ++
-  emit (N.land (pieces p us Queen) pinned_rook)
-       (fun fr => caps Queen fr (N.land (N.land (rook_moves fr occ_ne) allowed) rook_xrays)) ++
+  pawn_captures p us ksq occ allowed pinned_rook pinned_ne_sw pinned_nw_se ep_bb ep_resolves_check ++
+  piece_captures p us allowed pin pinned_bishop pinned_rook bishop_xrays rook_xrays occ_ne ++
   king_captures p.
 
 Definition legal_captures := legal_captures_gen true.
@@ -182,6 +192,45 @@ Definition castle_try (p : position) (checked : bool) (rook_pinned : N) (i : N) 
     then [mkMove mt ksq rf King NoPiece NoPiece] else []
   else [].
 
+Definition normals_from (pc : piece) (fr : N) (mask : N) : list move :=
+  emit mask (fun to => [mkMove Normal fr to pc NoPiece NoPiece]).
+
+(* the "Pawns" block of legal_noncaptures *)
+Definition pawn_pushes (us : side) (pawns allowed emp : N) : list move :=
+  match us with
+  | White =>
+    let promo := N.land pawns Rank7 in
+    let nonpromo := N.land pawns (not64 Rank7) in
+    emit (N.land (north nonpromo) allowed) (fun sq => [mkMove Normal (sq_south sq) sq Pawn NoPiece NoPiece]) ++
+    emit (N.land (north promo) allowed) (fun sq => promos (sq_south sq) sq) ++
+    emit (N.land (N.land (north (N.land emp (north pawns))) Rank4) allowed)
+         (fun sq => [mkMove Double (sq_south (sq_south sq)) sq Pawn NoPiece NoPiece])
+  | Black =>
+    let promo := N.land pawns Rank2 in
+    let nonpromo := N.land pawns (not64 Rank2) in
+    emit (N.land (south nonpromo) allowed) (fun sq => [mkMove Normal (sq_north sq) sq Pawn NoPiece NoPiece]) ++
+    emit (N.land (south promo) allowed) (fun sq => promos (sq_north sq) sq) ++
+    emit (N.land (N.land (south (N.land emp (south pawns))) Rank5) allowed)
+         (fun sq => [mkMove Double (sq_north (sq_north sq)) sq Pawn NoPiece NoPiece])
+  end.
+
+(* knights, bishops, rooks, queens of legal_noncaptures *)
+Definition piece_quiets (p : position) (us : side) (nonpinned_pieces allowed occ_ne : N) : list move :=
+  emit (N.land (pieces p us Knight) nonpinned_pieces) (fun fr => normals_from Knight fr (N.land (knight_moves fr) allowed)) ++
+  emit (N.land (pieces p us Bishop) nonpinned_pieces) (fun fr => normals_from Bishop fr (N.land (bishop_moves fr occ_ne) allowed)) ++
+  emit (N.land (pieces p us Rook) nonpinned_pieces) (fun fr => normals_from Rook fr (N.land (rook_moves fr occ_ne) allowed)) ++
+  emit (N.land (pieces p us Queen) nonpinned_pieces) (fun fr => normals_from Queen fr (N.land (queen_moves fr occ_ne) allowed)).
+
+Definition king_quiets (p : position) : list move :=
+  let ksq := king_position p (turn p) in
+  normals_from King ksq (N.land (N.land (king_moves ksq) (king_allowed p)) (empty_sqs p)).
+
+Definition castles (p : position) (checked : bool) (rook_pinned : N) : list move :=
+  match turn p with
+  | White => castle_try p checked rook_pinned 0 Ksc 6 5 Black ++ castle_try p checked rook_pinned 1 Qsc 2 3 Black
+  | Black => castle_try p checked rook_pinned 2 Ksc 62 61 White ++ castle_try p checked rook_pinned 3 Qsc 58 59 White
+  end.
+
 Definition legal_noncaptures (p : position) : list move :=
   let us := turn p in
   let them := opp_side us in
@@ -208,35 +257,10 @@ Definition legal_noncaptures (p : position) : list move :=
   let nonpinned_pieces := N.lxor (occupancy_s p us) pinned_pieces in
   let pawns := N.land (pieces p us Pawn) (not64 (N.lor horizontal_pinned bishop_pinned)) in
   let occ_ne := not64 emp in
-  let normals (pc : piece) (fr : N) (mask : N) : list move :=
-    emit mask (fun to => [mkMove Normal fr to pc NoPiece NoPiece]) in
-  let pawn_moves :=
-    match us with
-    | White =>
-      let promo := N.land pawns Rank7 in
-      let nonpromo := N.land pawns (not64 Rank7) in
-      emit (N.land (north nonpromo) allowed) (fun sq => [mkMove Normal (sq_south sq) sq Pawn NoPiece NoPiece]) ++
-      emit (N.land (north promo) allowed) (fun sq => promos (sq_south sq) sq) ++
-      emit (N.land (N.land (north (N.land emp (north pawns))) Rank4) allowed)
-           (fun sq => [mkMove Double (sq_south (sq_south sq)) sq Pawn NoPiece NoPiece])
-    | Black =>
-      let promo := N.land pawns Rank2 in
-      let nonpromo := N.land pawns (not64 Rank2) in
-      emit (N.land (south nonpromo) allowed) (fun sq => [mkMove Normal (sq_north sq) sq Pawn NoPiece NoPiece]) ++
-      emit (N.land (south promo) allowed) (fun sq => promos (sq_north sq) sq) ++
-      emit (N.land (N.land (south (N.land emp (south pawns))) Rank5) allowed)
-           (fun sq => [mkMove Double (sq_north (sq_north sq)) sq Pawn NoPiece NoPiece])
-    end in
-  snd bscan ++ snd rscan ++ pawn_moves ++
-  emit (N.land (pieces p us Knight) nonpinned_pieces) (fun fr => normals Knight fr (N.land (knight_moves fr) allowed)) ++
-  emit (N.land (pieces p us Bishop) nonpinned_pieces) (fun fr => normals Bishop fr (N.land (bishop_moves fr occ_ne) allowed)) ++
-  emit (N.land (pieces p us Rook) nonpinned_pieces) (fun fr => normals Rook fr (N.land (rook_moves fr occ_ne) allowed)) ++
-  emit (N.land (pieces p us Queen) nonpinned_pieces) (fun fr => normals Queen fr (N.land (queen_moves fr occ_ne) allowed)) ++
-  normals King ksq (N.land (N.land (king_moves ksq) (king_allowed p)) emp) ++
-  match us with
-  | White => castle_try p checked rook_pinned 0 Ksc 6 5 Black ++ castle_try p checked rook_pinned 1 Qsc 2 3 Black
-  | Black => castle_try p checked rook_pinned 2 Ksc 62 61 White ++ castle_try p checked rook_pinned 3 Qsc 58 59 White
-  end.
+  snd bscan ++ snd rscan ++ pawn_pushes us pawns allowed emp ++
+  piece_quiets p us nonpinned_pieces allowed occ_ne ++
+  king_quiets p ++
+  castles p checked rook_pinned.
 
 (* legal_moves(): captures then non-captures; the vector overloads append *)
 Definition legal_moves_gen (g : bool) (p : position) : list move := legal_captures_gen g p ++ legal_noncaptures p.
